@@ -6,3 +6,6 @@ import Glas.Props.C16
 #print axioms Glas.Props.C16.can_finish
 #print axioms Glas.Props.C16.undisciplined_main_deadlocks
 #print axioms Glas.Props.C16.undisciplined_handler_deadlocks
+#print axioms Glas.Props.C16.glas_store_quiet
+#print axioms Glas.Props.C16.store_stable
+#print axioms Glas.Props.C16.store_unstable_without_cancel
